@@ -819,7 +819,7 @@ fn gen_walk(rng: &mut Rng, prefix: &str, depth: usize, side: u8, ds: &mut Vec<St
 }
 
 pub fn generate(thorough: bool, rng: &mut Rng, ops: &mut Vec<String>, stats: &mut Stats) {
-    let n_file = if thorough { 1500 } else { 120 };
+    let n_file = if thorough { 4000 } else { 120 };
     for _ in 0..n_file {
         let chunk = *rng.pick(&[4usize, 8, 16]);
         let nblobs = rng.below(5) as usize;
@@ -895,7 +895,7 @@ pub fn generate(thorough: bool, rng: &mut Rng, ops: &mut Vec<String>, stats: &mu
     // N = non-zero blob, z / n = short tail) × sparse on/off × destination {absent, empty, shorter, longer, same size with
     // other content, same size all zero}; verify / mtime-equal random (an accepted-unread file needs same size + mtime)
     let pats: &[&str] = if thorough { &["Z", "z", "ZZ", "ZZZ", "Zz", "ZZz", "ZN", "NZ", "ZNZ", "NZN", "NZz", "Zn", "ZZn", "NNZ", "ZNN"] } else { &["Z", "z", "ZZZ", "Zz", "ZN", "NZ", "ZNZ", "NZz", "Zn"] };
-    let reps = if thorough { 4 } else { 1 };
+    let reps = if thorough { 10 } else { 1 };
     for _ in 0..reps {
         for pat in pats {
             for dst in 0..6 {
@@ -956,7 +956,7 @@ pub fn generate(thorough: bool, rng: &mut Rng, ops: &mut Vec<String>, stats: &mu
     }
     // merge-walk: snapshot and destination derived from one random tree; names chosen so that component-wise order
     // ([a, x] < [a.b]) differs from the order of the joined strings ("a.b" < "a/x")
-    let n_walk = if thorough { 2500 } else { 250 };
+    let n_walk = if thorough { 6000 } else { 250 };
     for _ in 0..n_walk {
         let (mut ds, mut ns) = (Vec::new(), Vec::new());
         gen_walk(rng, "", 0, 0, &mut ds, &mut ns, stats);
@@ -966,7 +966,7 @@ pub fn generate(thorough: bool, rng: &mut Rng, ops: &mut Vec<String>, stats: &mu
         ops.push(format!("c14 walk {} {} {} {}", u8::from(del), u8::from(dry), j(&ds), j(&ns)));
     }
     // RestorePlan: to_packs of the plan vs the packs the restore reads
-    let n_plan = if thorough { 800 } else { 80 };
+    let n_plan = if thorough { 2500 } else { 80 };
     for _ in 0..n_plan {
         let letters = b"abcdefgh";
         let nb = 1 + rng.below(3) as usize;
@@ -1024,7 +1024,7 @@ pub fn generate(thorough: bool, rng: &mut Rng, ops: &mut Vec<String>, stats: &mu
         stats.hit(format!("typed.{k}"));
         ops.push(format!("c14 typed {k} {d}"));
     }
-    let n_tree = if thorough { 600 } else { 60 };
+    let n_tree = if thorough { 2000 } else { 60 };
     for _ in 0..n_tree {
         stats.hit("tree");
         ops.push(format!("c14 tree {}", rng.below(1 << 32)));
